@@ -13,6 +13,7 @@ batch merged in batch order, with `fedjax.evaluate_model` on the mock model of
 the docs, and with `ModelEvaluator`.  Monoid laws are additionally checked on
 the per-example statistics and on directly generated MeanStat/SumStat values.
 """
+import dataclasses
 import functools
 import warnings
 
@@ -159,8 +160,11 @@ def known_excluded(family, name, pd, t):
 
 
 @functools.lru_cache(maxsize=None)
-def build_metric(family, name, pd, c, t):
+def build_metric(family, name, pd, c, t, keyed_pred=False):
   base = BASES[family][name][0](c, t)
+  if keyed_pred and any(f.name == 'pred_key' for f in dataclasses.fields(base)):
+    # the documented way to read one entry of a mapping-valued prediction
+    base = dataclasses.replace(base, pred_key='out')
   if pd:
     return M.PerDomainMetric(base, num_domains=pd, domain_id_key=DOM_KEY[pd])
   return base
@@ -215,6 +219,24 @@ def mock_apply_for_eval(params, batch):
   return batch['pred']
 
 
+def mock_apply_for_eval_dict2(params, batch):
+  # a model whose prediction is a mapping: the metrics read prediction['out']
+  del params
+  # (every entry is per example: evaluate_batch maps over the leading axis)
+  return {'out': batch['pred'], 'aux': jnp.zeros((batch['pred'].shape[0],), jnp.float32)}
+
+
+def mock_apply_for_eval_dict3(params, batch):
+  del params
+  n = batch['pred'].shape[0]
+  return {'out': batch['pred'], 'aux': jnp.zeros((n,), jnp.float32),
+          'hidden': jnp.ones((n, 2), jnp.float32)}
+
+
+APPLY_FOR_EVAL = {'array': mock_apply_for_eval, 'dict2': mock_apply_for_eval_dict2,
+                  'dict3': mock_apply_for_eval_dict3}
+
+
 def mock_init(rng):
   return None
 
@@ -237,15 +259,15 @@ def metric_keys(menu, naming):
 
 
 @functools.lru_cache(maxsize=None)
-def build_model(family, c, t, menu, naming='descriptive'):
-  eval_metrics = {k: build_metric(family, n, pd, c, t)
+def build_model(family, c, t, menu, naming='descriptive', pred_form='array'):
+  eval_metrics = {k: build_metric(family, n, pd, c, t, pred_form != 'array')
                   for k, (n, pd) in zip(metric_keys(menu, naming), menu)}
   # The mock model of docs/fedjax.metrics.rst.  All models share their four
   # callables (module-level functions) and differ only in eval_metrics.
   return fedjax.Model(
       init=mock_init,
       apply_for_train=mock_apply_for_train,
-      apply_for_eval=mock_apply_for_eval,
+      apply_for_eval=APPLY_FOR_EVAL[pred_form],
       train_loss=mock_train_loss,
       eval_metrics=eval_metrics)
 
@@ -269,18 +291,19 @@ def sibling_menu(family, c, t, menu):
 
 
 @functools.lru_cache(maxsize=None)
-def build_evaluator(family, c, t, menu, naming='descriptive', backend='default'):
+def build_evaluator(family, c, t, menu, naming='descriptive', backend='default',
+                    pred_form='array'):
   if backend == 'debug':
     # the documented eager backend (jit disabled, clients one after the other)
     with fedjax.for_each_client_backend('debug'):
-      return fmodels.ModelEvaluator(build_model(family, c, t, menu, naming))
+      return fmodels.ModelEvaluator(build_model(family, c, t, menu, naming, pred_form))
   if backend == 'pmap':
     # the documented parallel backend over 3 of the virtual CPU devices: the two
     # clients of a case leave one device of the block to a padding client
     from fedjax.core import for_each_client as fec
     with fedjax.for_each_client_backend(fec.ForEachClientPmapBackend(jax.local_devices()[:3])):
-      return fmodels.ModelEvaluator(build_model(family, c, t, menu, naming))
-  return fmodels.ModelEvaluator(build_model(family, c, t, menu, naming))
+      return fmodels.ModelEvaluator(build_model(family, c, t, menu, naming, pred_form))
+  return fmodels.ModelEvaluator(build_model(family, c, t, menu, naming, pred_form))
 
 
 @functools.lru_cache(maxsize=None)
@@ -558,6 +581,72 @@ def run_batch_merge(case):
                   zero_shapes=zres_shapes if empty else None)
 
 
+# ---------------------------------------------- check: an infinite real loss
+
+INF_METRICS = {'cls': ['ce'], 'seq': ['tok_ce', 'seq_ce']}
+
+
+def run_infinite_loss(case):
+  """A REAL example whose target has logit -inf (probability 0: a label outside
+  a restricted output vocabulary) has cross entropy +inf, and so has every mean
+  it is part of -- whether the statistics are merged example by example or the
+  examples are evaluated as (padded) batches, directly, through evaluate_model
+  or through ModelEvaluator.  (A masked row like that contributes nothing; that
+  is part of the other checks.)"""
+  validate(case)
+  fam, c, t = case['family'], case['C'], case.get('T', 0)
+  name = case['metric']
+  metric = build_metric(fam, name, 0, c, t)
+  cls = type(metric).__name__
+  ex, batches = build_batches(case)
+  jex = [{k: jnp.asarray(v) for k, v in e.items()} for e in ex]
+  s = metric.zero()
+  for e in jex:
+    s = s.merge(metric.evaluate_example(e, e['pred']))
+  want = np.asarray(s.result(), np.float64)
+  require(bool(np.isposinf(want).all()), 'harness:reference_not_infinite', f'{cls}: {want.tolist()}')
+  got = {}
+  b = metric.zero()
+  for feats, mask, _ in batches:
+    b = b.merge(M.evaluate_batch(metric, feats, feats['pred'], mask))
+  got['evaluate_batch, merged'] = b.result()
+  menu = ((name, 0),)
+  user_batches = [with_mask(case, feats, mask) for feats, mask, _ in batches]
+  model = build_model(fam, c, t, menu)
+  got['evaluate_model'] = fedjax.evaluate_model(model, None, user_batches)[key_of(name, 0)]
+  out = dict(build_evaluator(fam, c, t, menu).evaluate_global_params(None, [(b'c', user_batches)]))
+  got['ModelEvaluator'] = out[b'c'][key_of(name, 0)]
+  for path, res in got.items():
+    r = np.asarray(res, np.float64)
+    require(r.shape == want.shape and bool(np.isposinf(r).all()),
+            'infinite_loss:mean_over_an_infinite_loss_is_not_infinite',
+            lambda: f'{cls} via {path}: {r.tolist()}; merging the single-example statistics '
+                    f'gives {want.tolist()}')
+  return []
+
+
+@st.composite
+def infinite_loss_case(draw, tier):
+  family, c, t = draw(shape_strategy())
+  case = {'family': family, 'C': c, 'metric': draw(st.sampled_from(INF_METRICS[family]))}
+  if family == 'seq':
+    case['T'] = t
+  while True:
+    part = draw(partition_strategy(family, c, t, 6))
+    if part['examples']:
+      break
+  row = part['examples'][draw(st.integers(0, len(part['examples']) - 1))]
+  if family == 'cls':
+    row['p'][row['y']] = '-inf'
+  else:
+    # every position carries a real (non-masked) target with logit -inf
+    row['y'] = [max(1, y) for y in row['y']]
+    for pos, y in enumerate(row['y']):
+      row['p'][pos][y] = '-inf'
+  case.update(part)
+  return case
+
+
 # -------------------------------------------------------------- check: model
 
 
@@ -569,7 +658,8 @@ def run_model_paths(case):
       else tuple(default_menu(fam, t, case.get('menu', 'full')))
   naming = case.get('naming', 'descriptive')
   names = metric_keys(menu, naming)
-  model = build_model(fam, c, t, menu, naming)
+  pf = case.get('pred_form', 'array')
+  model = build_model(fam, c, t, menu, naming, pf)
   span = logit_span(case)
   ex, batches = build_batches(case)
   user_batches = [with_mask(case, feats, mask) for feats, mask, _ in batches]
@@ -588,11 +678,11 @@ def run_model_paths(case):
     # (the menu rotated by one).  What the model under test returns must be
     # decided by its own metrics, not by whatever was evaluated before it.
     sib_menu = sibling_menu(fam, c, t, menu)
-    sibling = build_model(fam, c, t, sib_menu, naming)
+    sibling = build_model(fam, c, t, sib_menu, naming, pf)
     if 'evaluate_model' in case['via']:
       fedjax.evaluate_model(sibling, None, user_batches)
     if 'evaluator' in case['via']:
-      list(build_evaluator(fam, c, t, sib_menu, naming).evaluate_global_params(
+      list(build_evaluator(fam, c, t, sib_menu, naming, 'default', pf).evaluate_global_params(
           None, [(b'sib', user_batches)]))
   if 'evaluate_model' in case['via']:
     results['evaluate_model'] = fedjax.evaluate_model(model, None, user_batches)
@@ -616,7 +706,7 @@ def run_model_paths(case):
       # feature set (a batch without the mask key next to one with it cannot
       # be stacked)
       eb = 'default'
-    evaluator = build_evaluator(fam, c, t, menu, naming, eb)
+    evaluator = build_evaluator(fam, c, t, menu, naming, eb, pf)
     rev = list(reversed(user_batches))
     # the mock model ignores its params; pmap needs an array to map over
     params = jnp.zeros((1,), jnp.float32) if eb == 'pmap' else None
@@ -857,6 +947,7 @@ def model_case_strategy(draw, tier, force_empty=False):
                                       ['evaluate_model', 'evaluator']]))
   case['per_client_params'] = draw(st.booleans())
   case['as_generator'] = draw(st.booleans())
+  case['pred_form'] = draw(st.sampled_from(['array', 'array', 'array', 'dict2', 'dict3']))
   if 'evaluator' in case['via']:
     pick = draw(st.integers(0, 5))
     if pick == 0:
@@ -949,6 +1040,8 @@ def eval_labels(case):
     ls += ['via:' + v for v in case['via']]
     if case.get('sibling_first'):
       ls.append('same_names_other_metrics_model_evaluated_first')
+    if case.get('pred_form', 'array') != 'array':
+      ls.append('mapping_valued_prediction')
     if case.get('evaluator_backend') == 'debug':
       ls.append('evaluator_on_debug_backend')
     if (case.get('evaluator_backend') == 'pmap' and len({len(b) for b in case['batches']}) <= 1
@@ -1033,6 +1126,15 @@ CHECKS = [
           budget={'quick': 160, 'thorough': 3000}, time_share=2.0,
           doc='no example at all (no batch, or only all-padding batches with '
               'arbitrary content): every path yields zero().result() == 0, finite'),
+    Check(name='infinite_loss_example', run=run_infinite_loss,
+          strategy=infinite_loss_case,
+          labels=lambda c: ['family:' + c['family'], 'metric:' + c['metric'],
+                            'examples=%d' % min(len(c['examples']), 3)],
+          nontrivial=lambda c, ls: len(c['examples']) >= 2,
+          budget={'quick': 96, 'thorough': 2000}, time_share=0.7,
+          doc='one real example has a target of probability 0 (cross entropy +inf): the '
+              'mean loss is +inf via merged single-example statistics, evaluate_batch, '
+              'evaluate_model and ModelEvaluator alike'),
     Check(name='stat_laws', run=run_stat_laws,
           strategy=stat_case_strategy, labels=stat_labels,
           nontrivial=stat_nontrivial,
